@@ -1,13 +1,17 @@
-(* C15 -- Term comparison and sort/2 follow the standard order of terms:
-   FULL-STRENGTH statements.  This file holds for problog/engine_builtin.py with
-   fixes/C15-struct-cmp-number-fallthrough.patch applied (the generated model
-   GenStructCmp.v follows whatever source is present).  On the pinned source it
-   does not compile (ProofsFixed.v breaks); Findings.v refutes it there.
-   After the fix is applied this file replaces Props.v:
-       cp coq/theories/C15/PropsFixed.v coq/theories/C15/Props.v
-   Domain [dom]: functor names stored unquoted (the remaining defect, see
-   FindingsQuoted.v), integers |z| < 2^53 (comparison goes through float()),
-   any finite float, strings, variables (engine ints). *)
+(* C15 -- Term comparison and sort/2 follow the standard order of terms.
+   Only statements, closed by `exact`.
+
+   Part 1 (spec): the standard order is a total order and sort_u is the unique
+   strictly ascending duplicate-free list -- about ModelStd only.
+   Part 2 (code): the model generated from problog/engine_builtin.py
+   (GenStructCmp.v, regenerated on every run) against that order, on the domain
+   [dom]: functor names stored unquoted (the remaining known findings: quoted
+   atoms and the compound '-'(N), witnesses in Findings.v), integers |z| < 2^53
+   (comparison goes through float()), any finite float, strings, variables
+   (engine ints).  History: before fix 24d7f1d (`return res` in the number branch
+   of struct_cmp) the code theorems only held for one-digit integers; the
+   witnesses 10 vs 9 and sort([10,9,2,1]) are kept in corpus/C15.
+   [fr] is Python's repr of a float, left abstract. *)
 From Coq Require Import ZArith NArith List Bool Sorted.
 From PL.C15 Require Import ModelStd ModelPrelude GenStructCmp ProofsStd ProofsSort ProofsGen ProofsFixed.
 Import ListNotations.
